@@ -167,6 +167,17 @@ def run_algD(pyf, n, N, rs):
     return (None if budget else [int(v) for v in out]), cands, problems, guard_fails
 
 
+def jit_call(ctx, name, f, args, case, want):
+    """the jitted function on the same inputs must agree with the traced py_func"""
+    try:
+        jit = [int(v) for v in f(*args)]
+    except Exception as e:  # noqa: BLE001
+        ctx.fail("A", f"jit:{name}", case, f"jitted function raised {type(e).__name__}: {e}; py_func returned {want}")
+        return
+    if jit != want:
+        ctx.fail("A", f"jit:{name}", case, f"jitted {jit} py_func {want}")
+
+
 def is_sample(ind, n, N):
     ind = [int(v) for v in ind]
     return len(ind) == n and all(0 <= v < N for v in ind) and all(a < b for a, b in zip(ind, ind[1:]))
@@ -298,7 +309,6 @@ def leg_a_eye_full(ctx, rng):
         try:
             x = sparse.eye(N, M, k, dtype=np.int64)
             want = impl.coo_json(x)
-            # data is broadcast from a scalar by the constructor
         except Exception as e:  # noqa: BLE001
             ctx.fail("A", "model:eye", case, f"implementation raised {type(e).__name__}: {e}")
             continue
@@ -308,14 +318,19 @@ def leg_a_eye_full(ctx, rng):
     reqs, metas = [], []
     for shp in [(), (0,), (3,), (2, 3), (2, 0, 3), (1, 2, 2)]:
         for v in (0, 1, -4, 7):
-            x = sparse.full(shp, v)
-            reqs.append(["full", list(shp), v])
-            metas.append(({"op": "full", "shape": list(shp), "fill": v}, impl.coo_json(x)))
             a = sparse.COO.from_numpy(gen.dense(rng, shp, 2), fill_value=2)
+            calls = [({"op": "full", "shape": list(shp), "fill": v}, ["full", list(shp), v], lambda: sparse.full(shp, v))]
             for ns in (None, (4,), (2, 2)):
-                y = sparse.full_like(a, v, shape=ns)
-                reqs.append(["full_like", impl.coo_json(a), v, None if ns is None else list(ns)])
-                metas.append(({"op": "full_like", "a": impl.coo_json(a), "fill": v, "shape": ns}, impl.coo_json(y)))
+                calls.append(({"op": "full_like", "a": impl.coo_json(a), "fill": v, "shape": ns},
+                              ["full_like", impl.coo_json(a), v, None if ns is None else list(ns)], lambda ns=ns: sparse.full_like(a, v, shape=ns)))
+            for case, req, thunk in calls:
+                try:
+                    want = impl.coo_json(thunk())
+                except Exception as e:  # noqa: BLE001
+                    ctx.fail("A", "model:" + case["op"], case, f"implementation raised {type(e).__name__}: {e}")
+                    continue
+                reqs.append(req)
+                metas.append((case, want))
     for (case, want), o in zip(metas, ctx.driver.run(reqs)):
         ctx.case("A:" + case["op"], case, nontrivial=True)
         if o.get("ok") != want:
@@ -350,9 +365,7 @@ def leg_a_kernels(ctx, rng, n_runs):
             reqs.append(["algA", n, N, skips, last])
             metas.append(("algA", case, {"arr": out, "final_N": finalN}, out, n, N))
             if not scripted:
-                jit = [int(v) for v in U.algA(n, N, np.random.default_rng(seed))]
-                if jit != out:
-                    ctx.fail("A", "jit:algA", case, f"jitted {jit} py_func {out}")
+                jit_call(ctx, "algA", U.algA, (n, N, np.random.default_rng(seed)), case, out)
         # ---- algD: n >= 1, N > n (as called: N > 10 n; also the tight region N = n + 1 ...)
         n = int(rng.choice([1, 2, 2, 3, 5, 8, 20]))
         N = n + int(rng.choice([1, 2, 3, 10 * n, 10 * n + 1, 40 * n]))
@@ -380,9 +393,7 @@ def leg_a_kernels(ctx, rng, n_runs):
             else:
                 metas.append(("algD", case, {"arr": out, "unconsumed": 0}, out, n, N))
                 if not scripted:
-                    jit = [int(v) for v in U.algD(n, N, np.random.default_rng(seed))]
-                    if jit != out:
-                        ctx.fail("A", "jit:algD", case, f"jitted {jit} py_func {out}")
+                    jit_call(ctx, "algD", U.algD, (n, N, np.random.default_rng(seed)), case, out)
         # ---- reverse: complement of a sorted subset; error paths of py_func
         N = int(rng.choice([0, 1, 2, 5, 9, 20]))
         k = int(rng.integers(0, N + 1))
@@ -403,10 +414,8 @@ def leg_a_kernels(ctx, rng, n_runs):
             got = {"err": impl.err_class(e)}
         reqs.append(["reverse", inv, N])
         metas.append(("reverse", case, got, None, None, None))
-        if kind == "sorted" and inv == sorted(inv):
-            jit = [int(v) for v in U.reverse(np.array(inv, dtype=np.intp), N)]
-            if got.get("ok") != jit:
-                ctx.fail("A", "jit:reverse", case, f"jitted {jit} py_func {got}")
+        if kind == "sorted" and inv == sorted(inv) and "ok" in got:
+            jit_call(ctx, "reverse", U.reverse, (np.array(inv, dtype=np.intp), N), case, got["ok"])
     outs = ctx.driver.run(reqs)
     for (kernel, case, want, out, n, N), o in zip(metas, outs):
         nontriv = bool(case.get("n", 0) and case["n"] > 1) or bool(case.get("inv"))
@@ -416,8 +425,8 @@ def leg_a_kernels(ctx, rng, n_runs):
         if got != ref:
             ctx.fail("A", f"model:{kernel}", case, f"model {o} implementation {want}")
         if out is not None and not is_sample(out, n, N):
-            ctx.fail("C", f"{kernel}:sample", case, f"{kernel}({n}, {N}) returned {out}: not {n} strictly increasing indices of [0, {N})",
-                     finding=findings.classify(PID, kernel, case, "not a sample"))
+            # the kernel's own contract (the public property is checked on sparse.random in leg C)
+            ctx.fail("A", f"contract:{kernel}", case, f"{kernel}({n}, {N}) returned {out}: not {n} strictly increasing indices of [0, {N})")
     for k, v in stats.items():
         ctx.count(k, int(v))
 
@@ -560,6 +569,10 @@ def shape_of_size(rng, size):
 
 FORMATS = ["coo", "gcxs", "dok"]
 CLS = {"coo": "COO", "gcxs": "GCXS", "dok": "DOK"}
+FILL_TABLE = {"0": 0, "1": 1, "-3": -3, "3": 3, "2.5": 2.5, "True": True, "(1+2j)": 1 + 2j, "np.float32(0.5)": np.float32(0.5),
+              "np.int8(7)": np.int8(7), "inf": float("inf"), "nan": float("nan")}
+SHAPES = [(), (0,), (3,), 4, (2, 3), (2, 0, 3), (1, 2, 2), (3, 1)]
+DTYPES = [None, "int64", "float32", "bool", "complex128", "int8", "uint16", "float64"]
 
 
 def fail_c(ctx, name, case, msg):
@@ -570,66 +583,15 @@ def fmt_problem(r, fmt):
     return None if type(r).__name__ == CLS[fmt] else f"result is {type(r).__name__}, requested format {fmt}"
 
 
-def leg_c_eye(ctx):
-    import sparse
-
-    R = 5 if ctx.quick else 7
-    for N in range(R + 1):
-        for M in [None, *range(R + 1)]:
-            for k in range(-R - 1, R + 2):
-                for fmt in FORMATS:
-                    for dt in ([None, np.int64, np.bool_] if ctx.quick else [None, np.int64, np.bool_, np.float32, np.complex128, np.uint8]):
-                        kw = {} if dt is None else {"dtype": dt}
-                        case = {"N": N, "M": M, "k": k, "format": fmt, "dtype": None if dt is None else np.dtype(dt).name}
-                        ctx.case(f"C:eye:{fmt}", case, nontrivial=N > 0 and (M is None or M > 0))
-                        res = []
-                        msg = oracle.compare(lambda: res.append(sparse.eye(N, M, k, format=fmt, **kw)) or res[-1],
-                                             lambda: np.eye(N, M, k, **kw), fill=np.zeros((), dtype=dt or float)[()])
-                        if not msg and res:
-                            msg = fmt_problem(res[-1], fmt)
-                            want = sum(1 for i in range(N) if 0 <= i + k < (N if M is None else M))
-                            if not msg and res[-1].nnz != want:
-                                msg = f"nnz {res[-1].nnz}, diagonal has {want} cells"
-                        if msg:
-                            fail_c(ctx, "eye", case, msg)
-    # positional / keyword spellings and integer-like arguments
-    for args, kw in [((3,), {}), ((3, 4), {}), ((3,), {"k": -1}), ((np.int64(3), np.int32(2)), {"k": np.int8(1)}), ((4, None, 2), {})]:
-        case = {"args": [None if a is None else int(a) for a in args], "kw": {k: int(v) for k, v in kw.items()}}
-        ctx.case("C:eye:spelling", case, nontrivial=True)
-        msg = oracle.compare(lambda: sparse.eye(*args, **kw), lambda: np.eye(*args, **kw), fill=0.0)
-        if msg:
-            fail_c(ctx, "eye", case, msg)
-
-
-SHAPES = [(), (0,), (3,), 4, (2, 3), (2, 0, 3), (1, 2, 2), (3, 1)]
-DTYPES = [None, np.int64, np.float32, np.bool_, np.complex128, np.int8, np.uint16, np.float64]
-FILLS = [0, 1, -3, 2.5, True, 1 + 2j, np.float32(0.5), np.int8(7), float("inf"), float("nan")]
-
-
-def fill_ok(fill, dt):
-    """stay inside what NumPy itself converts without error or warning-as-error"""
-    if dt is None:
-        return True
-    k = np.dtype(dt).kind
-    if isinstance(fill, complex) and k != "c":
-        return False
-    if isinstance(fill, float) and (fill != fill or fill in (float("inf"),)) and k in "iub":
-        return False
-    if k == "u" and np.real(fill) < 0:
-        return False
-    return True
-
-
-def same_scalar(a, b):
-    a, b = np.asarray(a), np.asarray(b)
-    return a.dtype == b.dtype and a.shape == () and b.shape == () and oracle.same_values(a, b)
+def quiet(f, *a, **k):
+    with warnings.catch_warnings():
+        warnings.simplefilter("ignore")
+        return f(*a, **k)
 
 
 def shape_dtype_only(thunk, ref):
     try:
-        with warnings.catch_warnings():
-            warnings.simplefilter("ignore")
-            r = thunk()
+        r = quiet(thunk)
     except Exception as e:  # noqa: BLE001
         return f"raised {type(e).__name__}: {str(e)[:160]}"
     if tuple(r.shape) != ref.shape:
@@ -639,132 +601,141 @@ def shape_dtype_only(thunk, ref):
     return impl.canonical_problem(r)
 
 
-def leg_c_fill(ctx, rng):
+# ---- one case of each family: dict -> description of the disagreement, or None.  Used by the legs and by --replay.
+
+def case_eye(case):
     import sparse
 
-    shapes = SHAPES if not ctx.quick else SHAPES[:7]
-    dts = DTYPES if not ctx.quick else DTYPES[:6]
-    for shp, dt, fmt in itertools.product(shapes, dts, FORMATS):
-        tshape = shp if isinstance(shp, tuple) else (shp,)
-        kwd = {} if dt is None else {"dtype": dt}
-        for fname, sf, nf in (("zeros", sparse.zeros, np.zeros), ("ones", sparse.ones, np.ones), ("empty", sparse.empty, np.zeros)):
-            case = {"fn": fname, "shape": list(tshape), "dtype": None if dt is None else np.dtype(dt).name, "format": fmt}
-            ctx.case(f"C:{fname}:{fmt}", case, nontrivial=True)
-            res = []
-            with warnings.catch_warnings():
-                warnings.simplefilter("ignore")
-                ref = nf(shp, **kwd)
-            if fname == "empty":  # np.empty promises shape and dtype only
-                msg = shape_dtype_only(lambda: res.append(sf(shp, format=fmt, **kwd)) or res[-1], ref)
-            else:
-                msg = oracle.compare(lambda: res.append(sf(shp, format=fmt, **kwd)) or res[-1], lambda: ref, fill=ref.dtype.type(0 if fname != "ones" else 1))
-            if not msg and res:
-                msg = fmt_problem(res[-1], fmt) or (None if res[-1].nnz == 0 else f"stores {res[-1].nnz} elements")
-            if msg:
-                fail_c(ctx, fname, case, msg)
-        for fill in FILLS:
-            if not fill_ok(fill, dt):
-                continue
-            case = {"fn": "full", "shape": list(tshape), "dtype": None if dt is None else np.dtype(dt).name, "format": fmt, "fill": repr(fill)}
-            ctx.case(f"C:full:{fmt}", case, nontrivial=True)
-            with warnings.catch_warnings():
-                warnings.simplefilter("ignore")
-                ref = np.full(shp, fill, **kwd)
-            res = []
-            msg = oracle.compare(lambda: res.append(sparse.full(shp, fill, format=fmt, **kwd)) or res[-1], lambda: ref, fill=ref.dtype.type(fill) if ref.dtype.kind != "b" else np.bool_(fill))
-            if not msg and res:
-                r = res[-1]
-                msg = fmt_problem(r, fmt) or (None if r.nnz == 0 else f"stores {r.nnz} elements")
-                if not msg and np.asarray(r.fill_value).dtype != ref.dtype:
-                    msg = f"fill value dtype {np.asarray(r.fill_value).dtype}, numpy array dtype {ref.dtype}"
-            if msg:
-                fail_c(ctx, "full", case, msg)
-    # *_like: prototype in every format and as ndarray; dtype / shape / format overrides
-    protos = []
-    for shp in [(), (3,), (2, 3), (2, 0), (2, 2, 2)]:
-        for pdt in (np.int64, np.float32, np.bool_):
-            d = gen.dense(rng, shp, 0).astype(pdt)
-            protos.append(("ndarray", d, d))
-            protos.append(("COO", sparse.COO.from_numpy(d), d))
-            protos.append(("DOK", sparse.DOK.from_numpy(d) if d.ndim else sparse.DOK((), dtype=d.dtype), d if d.ndim else np.zeros((), dtype=d.dtype)))
-            if len(shp) >= 1:
-                protos.append(("GCXS", sparse.GCXS.from_numpy(d), d))
-            if len(shp) == 2:
-                protos.append(("GCXS(1,)", sparse.GCXS.from_numpy(d, compressed_axes=(1,)), d))
-    for pname, a, d in protos:
-        for dt in (None, np.float64, np.int8):
-            for ns in (None, (4,), (0, 2)):
-                for fmt in (None, "coo", "gcxs", "dok"):
-                    if ctx.quick and rng.random() < 0.5:
-                        continue
-                    kw = {}
-                    if dt is not None:
-                        kw["dtype"] = dt
-                    if ns is not None:
-                        kw["shape"] = ns
-                    skw = dict(kw)
-                    if fmt is not None:
-                        skw["format"] = fmt
-                    want_fmt = fmt or {"ndarray": "coo", "COO": "coo", "DOK": "dok"}.get(pname, "gcxs")
-                    for fname, sf, nf, fv in (("zeros_like", sparse.zeros_like, np.zeros_like, None), ("ones_like", sparse.ones_like, np.ones_like, None),
-                                              ("empty_like", sparse.empty_like, np.zeros_like, None), ("full_like", sparse.full_like, np.full_like, 3),
-                                              ("full_like", sparse.full_like, np.full_like, 2.5)):
-                        case = {"fn": fname, "proto": pname, "proto_shape": list(d.shape), "proto_dtype": d.dtype.name, "dtype": None if dt is None else np.dtype(dt).name,
-                                "shape": None if ns is None else list(ns), "format": fmt, "fill": fv}
-                        ctx.case(f"C:{fname}", case, nontrivial=True)
-                        extra = () if fv is None else (fv,)
-                        res = []
-                        with warnings.catch_warnings():
-                            warnings.simplefilter("ignore")
-                            ref = nf(d, *extra, **kw)
-                        if fname == "empty_like":
-                            msg = shape_dtype_only(lambda: res.append(sf(a, *extra, **skw)) or res[-1], ref)
-                        else:
-                            msg = oracle.compare(lambda: res.append(sf(a, *extra, **skw)) or res[-1], lambda: ref,
-                                                 fill=ref.dtype.type({"zeros_like": 0, "ones_like": 1}.get(fname, fv)))
-                        if not msg and res:
-                            msg = fmt_problem(res[-1], want_fmt) or (None if res[-1].nnz == 0 else f"stores {res[-1].nnz} elements")
-                        if msg:
-                            fail_c(ctx, fname, case, msg)
+    N, M, k, fmt, dt = case["N"], case["M"], case["k"], case["format"], case["dtype"]
+    kw = {} if dt is None else {"dtype": np.dtype(dt)}
+    res = []
+    msg = oracle.compare(lambda: res.append(sparse.eye(N, M, k, format=fmt, **kw)) or res[-1],
+                         lambda: np.eye(N, M, k, **kw), fill=np.zeros((), dtype=dt or float)[()])
+    if not msg and res:
+        msg = fmt_problem(res[-1], fmt)
+        want = sum(1 for i in range(N) if 0 <= i + k < (N if M is None else M))
+        if not msg and res[-1].nnz != want:
+            msg = f"nnz {res[-1].nnz}, diagonal has {want} cells"
+    return msg
 
 
-def leg_c_asarray(ctx, rng):
+def case_eye_spelling(case):
+    import sparse
+
+    conv = {"int": int, "np.int64": np.int64, "np.int32": np.int32, "np.int8": np.int8}
+    args = tuple(None if a is None else conv[t](a) for a, t in case["args"])
+    kw = {k: conv[t](v) for k, (v, t) in case["kw"].items()}
+    return oracle.compare(lambda: sparse.eye(*args, **kw), lambda: np.eye(*args, **kw), fill=0.0)
+
+
+def case_fill(case):
+    """zeros / ones / empty / full"""
+    import sparse
+
+    fname, fmt, dt = case["fn"], case["format"], case["dtype"]
+    shp = case["shape_arg"] if isinstance(case["shape_arg"], int) else tuple(case["shape_arg"])
+    kwd = {} if dt is None else {"dtype": np.dtype(dt)}
+    res = []
+    if fname == "full":
+        fill = FILL_TABLE[case["fill"]]
+        ref = quiet(np.full, shp, fill, **kwd)
+        want_fill = ref.dtype.type(fill) if ref.dtype.kind != "b" else np.bool_(fill)
+        msg = oracle.compare(lambda: res.append(sparse.full(shp, fill, format=fmt, **kwd)) or res[-1], lambda: ref, fill=want_fill)
+    else:
+        sf, nf = {"zeros": (sparse.zeros, np.zeros), "ones": (sparse.ones, np.ones), "empty": (sparse.empty, np.zeros)}[fname]
+        ref = quiet(nf, shp, **kwd)
+        if fname == "empty":  # np.empty promises shape and dtype only
+            msg = shape_dtype_only(lambda: res.append(sf(shp, format=fmt, **kwd)) or res[-1], ref)
+        else:
+            msg = oracle.compare(lambda: res.append(sf(shp, format=fmt, **kwd)) or res[-1], lambda: ref, fill=ref.dtype.type(0 if fname != "ones" else 1))
+    if not msg and res:
+        r = res[-1]
+        msg = fmt_problem(r, fmt) or (None if r.nnz == 0 else f"stores {r.nnz} elements")
+        if not msg and fname != "empty" and np.asarray(r.fill_value).dtype != ref.dtype:
+            msg = f"fill value dtype {np.asarray(r.fill_value).dtype}, numpy array dtype {ref.dtype}"
+    return msg
+
+
+def make_proto(kind, d):
+    import sparse
+
+    if kind == "ndarray":
+        return d
+    if kind == "COO":
+        return sparse.COO.from_numpy(d)
+    if kind == "DOK":
+        return sparse.DOK.from_numpy(d) if d.ndim else sparse.DOK((), dtype=d.dtype)
+    if kind == "GCXS":
+        return sparse.GCXS.from_numpy(d)
+    if kind == "GCXS(1,)":
+        return sparse.GCXS.from_numpy(d, compressed_axes=(1,))
+    raise ValueError(kind)
+
+
+def case_like(case):
+    import sparse
+
+    fname, pname, fmt, dt, ns = case["fn"], case["proto"], case["format"], case["dtype"], case["shape"]
+    d = np.array(case["proto_dense"], dtype=case["proto_dtype"]).reshape(case["proto_shape"])
+    if pname == "DOK" and d.ndim == 0:
+        d = np.zeros((), dtype=d.dtype)
+    a = make_proto(pname, d)
+    kw = {}
+    if dt is not None:
+        kw["dtype"] = np.dtype(dt)
+    if ns is not None:
+        kw["shape"] = tuple(ns)
+    skw = dict(kw)
+    if fmt is not None:
+        skw["format"] = fmt
+    want_fmt = fmt or {"ndarray": "coo", "COO": "coo", "DOK": "dok"}.get(pname, "gcxs")
+    sf, nf = {"zeros_like": (sparse.zeros_like, np.zeros_like), "ones_like": (sparse.ones_like, np.ones_like),
+              "empty_like": (sparse.empty_like, np.zeros_like), "full_like": (sparse.full_like, np.full_like)}[fname]
+    extra = () if case["fill"] is None else (FILL_TABLE[case["fill"]],)
+    ref = quiet(nf, d, *extra, **kw)
+    res = []
+    if fname == "empty_like":
+        msg = shape_dtype_only(lambda: res.append(sf(a, *extra, **skw)) or res[-1], ref)
+    else:
+        fv = {"zeros_like": 0, "ones_like": 1}.get(fname, extra[0] if extra else 0)
+        msg = oracle.compare(lambda: res.append(sf(a, *extra, **skw)) or res[-1], lambda: ref, fill=ref.dtype.type(fv))
+    if not msg and res:
+        msg = fmt_problem(res[-1], want_fmt) or (None if res[-1].nnz == 0 else f"stores {res[-1].nnz} elements")
+    return msg
+
+
+def case_asarray(case):
     import scipy.sparse as sp
     import sparse
 
-    n = 0
-    for shp in [(), (3,), (2, 3), (0, 2), (2, 2, 2), (1, 4)]:
-        for pdt in (np.int64, np.float64, np.bool_):
-            d = gen.dense(rng, shp, 0, density=0.5).astype(pdt)
-            objs = [("ndarray", d), ("list", d.tolist())]
-            if len(shp) >= 1:  # 0-d sparse prototypes are C05's subject (from_numpy of a 0-d array)
-                objs += [("COO", sparse.COO.from_numpy(d)), ("DOK", sparse.DOK.from_numpy(d))]
-            if len(shp) >= 1:
-                objs.append(("GCXS", sparse.GCXS.from_numpy(d)))
-            if len(shp) == 2:
-                objs += [("scipy.csr", sp.csr_matrix(d)), ("scipy.coo_array", sp.coo_array(d))]
-            if shp == ():
-                objs.append(("scalar", d[()].item()))
-            for oname, obj in objs:
-                for fmt in FORMATS:
-                    for dt in (None, np.float32):
-                        kw = {} if dt is None else {"dtype": dt}
-                        case = {"obj": oname, "shape": list(shp), "obj_dtype": d.dtype.name, "format": fmt, "dtype": None if dt is None else "float32", "dense": d.tolist()}
-                        ctx.case(f"C:asarray:{oname}", case, nontrivial=bool(d.size))
-                        n += 1
-                        res = []
-                        ref_obj = obj if oname in ("ndarray", "list", "scalar") else d
-                        msg = oracle.compare(lambda: res.append(sparse.asarray(obj, format=fmt, **kw)) or res[-1],
-                                             lambda: np.asarray(ref_obj, **kw), check_dtype=True, must_be_sparse=True)
-                        if not msg and res:
-                            msg = fmt_problem(res[-1], fmt)
-                        if msg:
-                            fail_c(ctx, "asarray", case, msg)
-    ctx.count("asarray_cases", n)
+    oname, fmt, dt = case["obj"], case["format"], case["dtype"]
+    d = np.array(case["dense"], dtype=case["obj_dtype"]).reshape(case["shape"])
+    if oname == "ndarray":
+        obj = d
+    elif oname == "list":
+        obj = d.tolist()
+    elif oname == "scalar":
+        obj = d[()].item()
+    elif oname == "scipy.csr":
+        obj = sp.csr_matrix(d)
+    elif oname == "scipy.coo_array":
+        obj = sp.coo_array(d)
+    else:
+        obj = make_proto(oname, d)
+    kw = {} if dt is None else {"dtype": np.dtype(dt)}
+    ref_obj = obj if oname in ("ndarray", "list", "scalar") else d
+    res = []
+    msg = oracle.compare(lambda: res.append(sparse.asarray(obj, format=fmt, **kw)) or res[-1],
+                         lambda: np.asarray(ref_obj, **kw), check_dtype=True, must_be_sparse=True)
+    if not msg and res:
+        msg = fmt_problem(res[-1], fmt)
+    return msg
 
 
 def check_random_result(x, shp, nnz, fmt, fill, idx_dtype, values, size):
     """the property, on one result; returns a description of the first problem or None"""
+    import sparse
+
     p = fmt_problem(x, fmt)
     if p:
         return p
@@ -775,7 +746,6 @@ def check_random_result(x, shp, nnz, fmt, fill, idx_dtype, values, size):
     p = impl.canonical_problem(x)
     if p:
         return f"not canonical: {p}"
-    import sparse
     c = x if isinstance(x, sparse.COO) else x.asformat("coo")
     lin = np.ravel_multi_index(tuple(c.coords.astype(np.int64)), shp) if (len(shp) and size) else np.zeros(c.nnz, dtype=np.int64)
     if len(set(lin.tolist())) != nnz or (nnz and (lin.min() < 0 or lin.max() >= size)):
@@ -786,8 +756,8 @@ def check_random_result(x, shp, nnz, fmt, fill, idx_dtype, values, size):
     if not oracle.same_values(np.asarray(x.fill_value), np.asarray(want_fill, dtype=x.dtype)):
         return f"fill value {x.fill_value!r}, requested {fill!r}"
     if values is not None:
-        got = c.data[np.argsort(lin, kind="stable")]
-        if not oracle.same_values(got, np.asarray(values)):
+        got = np.sort(np.asarray(c.data))  # the property fixes which values are stored, not their placement
+        if not oracle.same_values(got, np.sort(np.asarray(values))):
             return f"stored values {got.tolist()[:10]} are not the sampler's {np.asarray(values).tolist()[:10]}"
     if idx_dtype is not None:
         arrs = [x.coords] if isinstance(x, sparse.COO) else ([x.indices, x.indptr] if isinstance(x, sparse.GCXS) and x.ndim > 1 else [])
@@ -795,6 +765,145 @@ def check_random_result(x, shp, nnz, fmt, fill, idx_dtype, values, size):
             if a.dtype != np.dtype(idx_dtype):
                 return f"index dtype {a.dtype}, requested {np.dtype(idx_dtype)}"
     return None
+
+
+def case_random(case):
+    """sparse.random with a counting sampler, twice with the same seed (int, then a fresh Generator)"""
+    import sparse
+
+    shp, nnz, density, fmt, fill, idt, seed = (tuple(case["shape"]), case["nnz"], case["density"], case["format"], case["fill"],
+                                               case["idx_dtype"], case["seed"])
+    size = int(np.prod(shp, dtype=np.int64))
+    want = nnz if nnz is not None else int(size * density)
+    rec = []
+
+    def rvs(n):
+        rec.append(int(n))
+        return np.arange(1, n + 1, dtype=np.float64) * 0.5
+
+    kw = {"format": fmt, "random_state": seed, "data_rvs": rvs}
+    if nnz is not None:
+        kw["nnz"] = nnz
+    else:
+        kw["density"] = density
+    if fill is not None:
+        kw["fill_value"] = fill
+    if idt is not None:
+        kw["idx_dtype"] = np.dtype(idt)
+    try:
+        x = quiet(sparse.random, shp, **kw)
+        x2 = quiet(sparse.random, shp, **{**kw, "random_state": np.random.default_rng(seed)})
+    except Exception as e:  # noqa: BLE001
+        return f"raised {type(e).__name__}: {str(e)[:160]}"
+    msg = check_random_result(x, shp, want, fmt, fill, idt, np.arange(1, want + 1) * 0.5, size)
+    if not msg and rec[:1] != [want]:
+        msg = f"data_rvs called with {rec[:3]}, nnz is {want}"
+    if not msg:
+        a, b = x.asformat("coo"), x2.asformat("coo")
+        if not (np.array_equal(a.coords, b.coords) and np.array_equal(a.data, b.data)):
+            msg = "same seed (int and fresh Generator) gave different arrays"
+    return msg
+
+
+def case_random_defaults(case):
+    import sparse
+
+    shp, kw = tuple(case["shape"]), case["kw"]
+    size = int(np.prod(shp))
+    want = kw.get("nnz", int(size * kw.get("density", 0.01)))
+    try:
+        x = quiet(sparse.random, shp, **kw)
+    except Exception as e:  # noqa: BLE001
+        return f"raised {type(e).__name__}: {e}"
+    msg = check_random_result(x, shp, want, "coo", None, None, None, size)
+    if not msg and x.dtype != np.float64:
+        msg = f"dtype {x.dtype} with the default sampler"
+    return msg
+
+
+CASE_FN = {"eye": case_eye, "eye:spelling": case_eye_spelling, "zeros": case_fill, "ones": case_fill, "empty": case_fill, "full": case_fill,
+           "zeros_like": case_like, "ones_like": case_like, "empty_like": case_like, "full_like": case_like, "asarray": case_asarray,
+           "random": case_random, "random:boundary": case_random, "random:density": case_random, "random:defaults": case_random_defaults}
+
+
+def do_case(ctx, name, family, case, nontrivial=True):
+    ctx.case(family, case, nontrivial=nontrivial)
+    try:
+        msg = CASE_FN[name](case)
+    except Exception as e:  # noqa: BLE001 — the harness' own reference computation must not take the run down
+        msg = f"case could not be evaluated: {type(e).__name__}: {str(e)[:160]}"
+    if msg:
+        fail_c(ctx, name, case, msg)
+
+
+def leg_c_eye(ctx):
+    R = 5 if ctx.quick else 7
+    dts = [None, "int64", "bool"] if ctx.quick else [None, "int64", "bool", "float32", "complex128", "uint8"]
+    for N in range(R + 1):
+        for M in [None, *range(R + 1)]:
+            for k in range(-R - 1, R + 2):
+                for fmt in FORMATS:
+                    for dt in dts:
+                        do_case(ctx, "eye", f"C:eye:{fmt}", {"N": N, "M": M, "k": k, "format": fmt, "dtype": dt}, N > 0 and (M is None or M > 0))
+    # positional / keyword spellings and integer-like arguments
+    for args, kw in [([(3, "int")], {}), ([(3, "int"), (4, "int")], {}), ([(3, "int")], {"k": (-1, "int")}),
+                     ([(3, "np.int64"), (2, "np.int32")], {"k": (1, "np.int8")}), ([(4, "int"), (None, None), (2, "int")], {})]:
+        do_case(ctx, "eye:spelling", "C:eye:spelling", {"args": [[a, t] if a is not None else [None, None] for a, t in args],
+                                                         "kw": {k: list(v) for k, v in kw.items()}})
+
+
+def fill_ok(fill, dt):
+    """stay inside what NumPy itself converts without error"""
+    if dt is None:
+        return True
+    k = np.dtype(dt).kind
+    if isinstance(fill, complex) and k != "c":
+        return False
+    if isinstance(fill, float) and (fill != fill or fill == float("inf")) and k in "iub":
+        return False
+    return not (k == "u" and np.real(fill) < 0)
+
+
+def leg_c_fill(ctx, rng):
+    shapes = SHAPES if not ctx.quick else SHAPES[:7]
+    dts = DTYPES if not ctx.quick else DTYPES[:6]
+    for shp, dt, fmt in itertools.product(shapes, dts, FORMATS):
+        arg = shp if isinstance(shp, int) else list(shp)
+        for fname in ("zeros", "ones", "empty"):
+            do_case(ctx, fname, f"C:{fname}:{fmt}", {"fn": fname, "shape_arg": arg, "dtype": dt, "format": fmt})
+        for key, fill in FILL_TABLE.items():
+            if key != "3" and fill_ok(fill, dt):
+                do_case(ctx, "full", f"C:full:{fmt}", {"fn": "full", "shape_arg": arg, "dtype": dt, "format": fmt, "fill": key})
+    # *_like: prototype in every format and as ndarray; dtype / shape / format overrides
+    for shp in [(), (3,), (2, 3), (2, 0), (2, 2, 2)]:
+        for pdt in ("int64", "float32", "bool"):
+            d = gen.dense(rng, shp, 0).astype(pdt)
+            kinds = ["ndarray", "COO", "DOK"] + (["GCXS"] if len(shp) >= 1 else []) + (["GCXS(1,)"] if len(shp) == 2 else [])
+            for pname, dt, ns, fmt in itertools.product(kinds, (None, "float64", "int8"), (None, [4], [0, 2]), (None, "coo", "gcxs", "dok")):
+                if ctx.quick and rng.random() < 0.5:
+                    continue
+                for fname, fv in (("zeros_like", None), ("ones_like", None), ("empty_like", None), ("full_like", "3"), ("full_like", "2.5")):
+                    do_case(ctx, fname, f"C:{fname}", {"fn": fname, "proto": pname, "proto_shape": list(shp), "proto_dtype": pdt, "proto_dense": d.ravel().tolist(),
+                                                        "dtype": dt, "shape": ns, "format": fmt, "fill": fv})
+
+
+def leg_c_asarray(ctx, rng):
+    n = 0
+    for shp in [(), (3,), (2, 3), (0, 2), (2, 2, 2), (1, 4)]:
+        for pdt in ("int64", "float64", "bool"):
+            d = gen.dense(rng, shp, 0, density=0.5).astype(pdt)
+            kinds = ["ndarray", "list"]
+            if len(shp) >= 1:  # 0-d sparse inputs are C05's subject (from_numpy of a 0-d array)
+                kinds += ["COO", "DOK", "GCXS"]
+            if len(shp) == 2:
+                kinds += ["scipy.csr", "scipy.coo_array"]
+            if shp == ():
+                kinds.append("scalar")
+            for oname, fmt, dt in itertools.product(kinds, FORMATS, (None, "float32")):
+                n += 1
+                do_case(ctx, "asarray", f"C:asarray:{oname}", {"obj": oname, "shape": list(shp), "obj_dtype": pdt, "format": fmt, "dtype": dt,
+                                                                "dense": d.ravel().tolist()}, bool(d.size))
+    ctx.count("asarray_cases", n)
 
 
 def boundary_nnz(e):
@@ -805,82 +914,51 @@ def boundary_nnz(e):
 
 
 def leg_c_random(ctx, rng):
-    import sparse
+    def one(shp, fmt, fill, idt, *, nnz=None, density=None, name="random"):
+        case = {"shape": list(shp), "nnz": nnz, "density": density, "format": fmt, "fill": fill, "idx_dtype": idt, "seed": int(rng.integers(2 ** 31))}
+        do_case(ctx, name, f"C:{name}:{fmt}", case, (nnz or 0) > 0 or (density or 0) > 0)
 
-    def one(shp, size, fmt, fill, idt, seed, *, nnz=None, density=None, name="random"):
-        want = nnz if nnz is not None else int(size * density)
-        rec = []
-
-        def rvs(n):
-            rec.append(int(n))
-            return (np.arange(1, n + 1, dtype=np.float64) * 0.5)
-
-        kw = {"format": fmt, "random_state": seed, "data_rvs": rvs}
-        if nnz is not None:
-            kw["nnz"] = nnz
-        else:
-            kw["density"] = density
-        if fill is not None:
-            kw["fill_value"] = fill
-        if idt is not None:
-            kw["idx_dtype"] = idt
-        case = {"shape": list(shp), "nnz": nnz, "density": density, "format": fmt, "fill": fill, "idx_dtype": None if idt is None else np.dtype(idt).name, "seed": seed}
-        ctx.case(f"C:{name}:{fmt}", case, nontrivial=want > 0)
-        try:
-            with warnings.catch_warnings():
-                warnings.simplefilter("ignore")
-                x = sparse.random(shp, **kw)
-                x2 = sparse.random(shp, **{**kw, "random_state": np.random.default_rng(seed)})
-        except Exception as e:  # noqa: BLE001
-            fail_c(ctx, name, case, f"raised {type(e).__name__}: {str(e)[:160]}")
-            return
-        msg = check_random_result(x, shp, want, fmt, fill, idt, np.arange(1, want + 1) * 0.5, size)
-        if not msg and rec[:1] != [want]:
-            msg = f"data_rvs called with {rec}, nnz is {want}"
-        if not msg:
-            a, b = x.asformat("coo"), x2.asformat("coo")
-            if not (np.array_equal(a.coords, b.coords) and np.array_equal(a.data, b.data)):
-                msg = "same seed (int and fresh Generator) gave different arrays"
-        if msg:
-            fail_c(ctx, name, case, msg)
-
-    max_size = 40
-    sizes = range(max_size + 1)
-    for size in sizes:
+    for size in range(41):  # every nnz from 0 to size, sizes <= 40
         for rep in range(1 if ctx.quick else 3):
             shp = shape_of_size(rng, size)
             for nnz in range(size + 1):
-                fmt = FORMATS[(nnz + rep) % 3]
-                fill = [None, 0, 7, 2.5][(nnz + size) % 4]
-                idt = [None, None, np.int32, np.uint8, np.int64][(nnz + 2 * size + rep) % 5]
-                one(shp, size, fmt, fill, idt, int(rng.integers(2 ** 31)), nnz=nnz)
+                one(shp, FORMATS[(nnz + rep) % 3], [None, 0, 7, 2.5][(nnz + size) % 4],
+                    [None, None, "int32", "uint8", "int64"][(nnz + 2 * size + rep) % 5], nnz=nnz)
     # branch boundaries on larger sizes
     for e_shape in ([(100,), (10, 10), (7, 11, 13), (1000,), (4, 250)] + ([] if ctx.quick else [(101,), (3, 5, 7), (4097,), (20, 50, 10)])):
-        size = int(np.prod(e_shape))
-        for nnz in boundary_nnz(size):
+        for nnz in boundary_nnz(int(np.prod(e_shape))):
             for fmt in (FORMATS if not ctx.quick else [FORMATS[nnz % 3]]):
-                one(e_shape, size, fmt, [None, 3][nnz % 2], None, int(rng.integers(2 ** 31)), nnz=nnz, name="random:boundary")
+                one(e_shape, fmt, [None, 3][nnz % 2], None, nnz=nnz, name="random:boundary")
     for e_shape in [(0,), (5,), (4, 5), (3, 3, 3), (100,), (7, 13)]:
-        size = int(np.prod(e_shape))
         for dens in [0.0, 0.01, 0.1, 0.25, 0.5, 0.75, 0.9, 0.99, 1.0, 1 / 3, 0.999999]:
             for fmt in FORMATS:
-                one(e_shape, size, fmt, None, None, int(rng.integers(2 ** 31)), density=dens, name="random:density")
+                one(e_shape, fmt, None, None, density=dens, name="random:density")
     # default density, default data_rvs, module-level generator (no seed): count / range / canonical only
     for e_shape in [(10, 10), (1000,), (3, 4, 5)]:
         for kw in ({}, {"density": 0.3}, {"nnz": 7}):
-            case = {"shape": list(e_shape), "kw": kw, "seed": None}
-            ctx.case("C:random:defaults", case, nontrivial=True)
-            size = int(np.prod(e_shape))
-            want = kw.get("nnz", int(size * kw.get("density", 0.01)))
-            try:
-                x = sparse.random(e_shape, **kw)
-                msg = check_random_result(x, e_shape, want, "coo", None, None, None, size)
-                if not msg and x.dtype != np.float64:
-                    msg = f"dtype {x.dtype} with the default sampler"
-            except Exception as e:  # noqa: BLE001
-                msg = f"raised {type(e).__name__}: {e}"
-            if msg:
-                fail_c(ctx, "random:defaults", case, msg)
+            do_case(ctx, "random:defaults", "C:random:defaults", {"shape": list(e_shape), "kw": kw, "seed": None})
+
+
+def replay(ctx, path):
+    """./check C19 --replay <file>: re-run the recorded failing input (or, for a replay that names only broken
+    obligations / correspondences, the whole check)"""
+    import json
+
+    data = json.loads(open(path if path.startswith("/") else str(core.ROOT / path)).read())
+    f = data.get("failure")
+    if not f or f.get("family") not in CASE_FN:
+        run(ctx)
+        return core.finish(ctx)
+    msg = CASE_FN[f["family"]](f["case"])
+    fid = findings.classify(PID, f["family"], f["case"], msg) if msg else None
+    if msg:
+        print(f"REPLAY property={PID} family={f['family']} still fails: {msg}" + (f" (known finding {fid})" if fid else ""), flush=True)
+        if not fid:
+            print(f"VIOLATION property={PID} replay={path}", flush=True)
+            return 1
+        return 0
+    print(f"REPLAY property={PID} family={f['family']}: the recorded input passes on the current tree", flush=True)
+    return 0
 
 
 def run(ctx):
